@@ -639,7 +639,8 @@ def processItem (ops : List Operand) (w : Option E) (using? : Option (List (Stri
     | r :: l :: rest =>
       let (st1, ref) := addPlanStep { st with stack := rest } (.join l r (ops.getD k default).jtype (onAfter ops k))
       .ok { st1 with stack := ref :: st1.stack }
-    | _ => .error .planning
+    | _ => .error .planning      -- Python would raise IndexError (`pop` from an empty list); unreachable from `joinSeq`:
+                                 -- every Join item follows two operand items (see `absRun_joinSeq`)
 
 def runItems (ops : List Operand) (w : Option E) (using? : Option (List (String × String))) :
     List Item → St → Except Err St
